@@ -14,7 +14,7 @@ func init() { register("C18", c18) }
 func c18(r *core.Run) {
 	r.Explanation = "Decided clauses: (R1) every HashInput method of an interpreter value type writes the HashInputType constant that carries its own type's name (HashInputTypeX in (XValue).HashInput); tag numbers are pinned and distinct (C44.R1); " +
 		"(R2) comparison methods Less/LessEqual/Greater/GreaterEqual use the operator that matches their name (native operator, big.Int Cmp result comparison, or the delegate method of the same name), and sibling widths agree; " +
-		"(R3) set-like type IDs sort their members before formatting (so the listing order cannot change the ID)."
+		"(R3) every StringValue is built by the NFC-normalising constructor (equality, ordering and hashing work on the normalised form); the non-normalising constructors have no shipped caller."
 	r.NotDecided = "the laws on values (equal values hash equally for NFC strings, nested containers, optional wrapping; total order)."
 	w := r.W
 	p := w.Pkg("interpreter")
@@ -118,4 +118,7 @@ func c18(r *core.Run) {
 	r.Floor("R2.compare", 80)
 	siblingRule(r, "R2.siblings", allFamilies, func(g string) bool { return isGroupOf(g, "Less", "LessEqual", "Greater", "GreaterEqual", "Equal") })
 	r.Floor("R2.siblings", 25)
+	// R3 strings are compared, ordered and hashed on their NFC form: every string value is produced by the normalising constructor
+	stringNormalisation(r, "R3.normalised")
+	r.Floor("R3.normalised", 4)
 }
